@@ -281,6 +281,9 @@ oldbuf:
 err1:
 	free(WB);
 err0:
+	/* No space has been reserved. */
+	W->reserved = 0;
+
 	/* Failure! */
 	return (NULL);
 }
